@@ -296,6 +296,11 @@ func init() {
 	}
 
 	reg("C10", "C10.1", "T6", "nflog state.merge is a last-writer-wins join: expired→reject; unknown key or strictly newer timestamp→store; else unchanged", nflogMergeTableRule)
+	reg("C04", "C04.8", "T6", "the entry the de-duplication reads is the newest one: nflog state.merge is a last-writer-wins join (a refused newer entry makes every flush look like a change or a due repeat)", nflogMergeTableRule)
+	reg("C04", "C04.9", "T6,T2,T5", "a recorded notification replaces the stored entry: Log skips only when the existing entry's timestamp is after now; merge before broadcast", func(o *Ob) {
+		nflogLogRule(o)
+		o.MinSites(4)
+	})
 
 	reg("C10", "C10.2", "T6,T2,T5", "Log: under the write lock; skips only when the existing entry's timestamp is after now; marshal, merge, then broadcast", func(o *Ob) {
 		nflogLogRule(o)
